@@ -11,6 +11,8 @@ if r['error']:
 else:
     st = r['stats']
     print({k: st[k] for k in ('paths', 'complete', 'aborted', 'obligations', 'discharged', 'inconclusive', 'queries', 'solver_s')}, 'wall', r['wall_s'])
+    for k, n in r.get('fork_sites', []):
+        print(n, k)
     for v in st['violations'][:3]:
         print('VIOL', json.dumps(v)[:1500])
     for s in st['samples'][:6]:
